@@ -8,6 +8,7 @@ orientation in every branch, sorted emission.
 from __future__ import annotations
 
 import ast
+import copy
 import itertools
 from typing import Dict, List, Optional
 
@@ -15,7 +16,7 @@ from checks.c03 import K, classify_skips, fold_call_arg, kd_loop, spec
 from sa import astq, intervals
 from sa.consteval import Folder
 from sa.defuse import Inliner
-from sa.flow import FlowMap
+from sa.flow import FlowMap, facts
 from sa.model import AnalysisError, norm
 
 AN = "annotator"
@@ -49,6 +50,374 @@ def str_eval(e: ast.AST, env: Dict[str, bool]) -> Optional[str]:
     return None
 
 
+
+class _Res:
+    def __init__(self, letter):
+        self.one_letter_name = letter
+
+
+def _collection(e: ast.AST, at: ast.stmt, rl: ast.For, fm: FlowMap, inl: Inliner, depth: int = 6):
+    """Descriptor of a collection expression inside the residue loop:
+        ("names", expr)                 atom names of the base
+        ("found", names)                [residue.find_atom(n) for n in names], may hold None
+        ("present", names)              the atoms found, None removed
+        ("axis", ax, coll)              coordinate `ax` of every member of coll
+    or None when not understood."""
+    if depth == 0:
+        return None
+    if isinstance(e, ast.Name):
+        d = inl.reaching(e.id, at)
+        if d is not None and not (isinstance(d, (ast.List, ast.Tuple)) and not d.elts):
+            dst = inl.stmt_of_value(d) or at
+            # tuple unpack `xs, ys, zs = [], [], []` is handled below (d is the whole tuple)
+            if not isinstance(d, ast.Tuple):
+                r = _collection(d, dst, rl, fm, inl, depth - 1)
+                if r is not None:
+                    return r
+                return ("names", d)
+        # accumulator: L = [] then L.append(V) inside a loop over names
+        apps = [a for a in astq.calls(rl, "append") if astq.dotted(a.func.value) == e.id and a.args]
+        others = [c for c in ast.walk(rl) if isinstance(c, ast.Call) and isinstance(c.func, ast.Attribute) and astq.dotted(c.func.value) == e.id and c.func.attr in ("extend", "insert", "remove", "pop", "clear")]
+        if len(apps) == 1 and not others:
+            st = fm.stmt_of(apps[0])
+            lps = [l for l in fm.of(st).loops if l is not rl and any(l is n for n in ast.walk(rl))]
+            if len(lps) != 1 or not isinstance(lps[0].target, ast.Name):
+                return None
+            loop = lps[0]
+            if any(isinstance(n, ast.Break) for n in ast.walk(loop)):
+                return None
+            src = _collection(loop.iter, loop, rl, fm, inl, depth - 1)
+            if src is None:
+                src = ("names", inl.inline(loop.iter, loop, stop=("residue",)))
+            v = loop.target.id
+            val = apps[0].args[0]
+            fs = facts(fm.guards_within(st, loop))
+            # the appended value: atom variable defined from find_atom(v), or an axis of it
+            atom_names = {}
+            for s2 in loop.body:
+                if isinstance(s2, ast.Assign) and isinstance(s2.targets[0], ast.Name) and norm(s2.value) == f"residue.find_atom({v})":
+                    atom_names[s2.targets[0].id] = True
+            if src[0] != "names":
+                return None
+
+            def not_none(name):
+                return any((norm(g.test) in (f"{name} is not None", name) and g.polarity) or (norm(g.test) in (f"{name} is None", f"not {name}") and not g.polarity) for g in fs)
+
+            extra = [g for g in fs if not any(norm(g.test) in (f"{n} is not None", n, f"{n} is None", f"not {n}") for n in atom_names)]
+            if extra:
+                return None
+            if isinstance(val, ast.Attribute) and isinstance(val.value, ast.Name) and val.value.id in atom_names and val.attr in ("x", "y", "z"):
+                return ("axis", val.attr, ("present", src[1]) if not_none(val.value.id) else ("found", src[1]))
+            if isinstance(val, ast.Name) and val.id in atom_names:
+                return ("present", src[1]) if not_none(val.id) else ("found", src[1])
+            return None
+        return None
+    if isinstance(e, (ast.ListComp, ast.GeneratorExp)) and len(e.generators) == 1 and isinstance(e.generators[0].target, ast.Name):
+        g = e.generators[0]
+        v = g.target.id
+        src = _collection(g.iter, at, rl, fm, inl, depth - 1)
+        if src is None:
+            src = ("names", inl.inline(g.iter, at, stop=("residue",)))
+        conds = [norm(c) for c in g.ifs]
+        if src[0] == "names" and norm(e.elt) == f"residue.find_atom({v})" and not conds:
+            return ("found", src[1])
+        if src[0] == "found" and norm(e.elt) == v and conds in ([f"{v} is not None"], [v]):
+            return ("present", src[1])
+        if src[0] in ("present", "found") and norm(e.elt) == v and not conds:
+            return src
+        if src[0] in ("present", "found") and isinstance(e.elt, ast.Attribute) and norm(e.elt.value) == v and e.elt.attr in ("x", "y", "z") and not conds:
+            return ("axis", e.elt.attr, src)
+        if src[0] == "found" and isinstance(e.elt, ast.Attribute) and norm(e.elt.value) == v and e.elt.attr in ("x", "y", "z") and conds in ([f"{v} is not None"], [v]):
+            return ("axis", e.elt.attr, ("present", src[1]))
+        return None
+    return None
+
+
+def _show(c) -> str:
+    if c is None:
+        return "?"
+    if c[0] == "names":
+        return f"names {norm(c[1])}"
+    if c[0] in ("found", "present"):
+        return f"{c[0]} atoms of {norm(c[1])}"
+    if c[0] == "axis":
+        return f"{c[1]} of {_show(c[2])}"
+    if c[0] == "count":
+        return f"number of {_show(c[1])}"
+    return str(c)
+
+
+def _centroid(chk, fi, fm, inl, rl) -> None:
+    repo = chk.repo
+    def is_mean_tuple(v):
+        return isinstance(v, ast.Tuple) and len(v.elts) == 3 and all(isinstance(e, ast.BinOp) and isinstance(e.op, ast.Div) for e in v.elts)
+
+    gc = [s for s in ast.walk(rl) if isinstance(s, ast.Assign) and is_mean_tuple(s.value)]
+    if len(gc) != 1:
+        chk.error("centroid-mean", fi.site(rl), f"{len(gc)} assignments of a (sum/count, sum/count, sum/count) tuple in the residue loop, expected one")
+        return
+    st = gc[0]
+    val = st.value
+    nums, dens = [], []
+    for e in val.elts:
+        m = astq.match(e, "sum(S_) / D_")
+        if not m:
+            chk.error("centroid-mean", fi.site(st), f"centroid component `{norm(e)[:60]}` is not sum(...) / count")
+            return
+        nums.append(_collection(m["S_"], st, rl, fm, inl))
+        d = m["D_"]
+        if isinstance(d, ast.Name):
+            dd = inl.reaching(d.id, st)
+            d = dd if dd is not None else d
+        md = astq.match(d, "len(L_)")
+        dc = None
+        if md:
+            lc = _collection(md["L_"], st, rl, fm, inl)
+            if lc is None:
+                lc = ("names", inl.inline(md["L_"], st, stop=("residue",)))
+            dc = lc[2] if lc[0] == "axis" else lc
+        dens.append(dc)
+    if any(n is None or n[0] != "axis" for n in nums) or any(d is None for d in dens):
+        chk.error("centroid-mean", fi.site(st), f"centroid numerators/denominators not understood: {[_show(n) for n in nums]} / {[_show(d) for d in dens]}")
+        return
+    axes = [n[1] for n in nums]
+    chk.expect(axes == ["x", "y", "z"], "centroid-axes", fi.site(st), "components are the means of x, y, z in this order", f"centroid components average {axes}, not x, y, z", K(fi, "centroid-axes"), found=axes)
+    bad = [(k, nums[k][2], dens[k]) for k in range(3) if not (nums[k][2][0] == "present" and dens[k][0] == "present" and norm(nums[k][2][1]) == norm(dens[k][1]))]
+    if bad:
+        k, n, d = bad[0]
+        chk.violation("centroid-mean", fi.site(st), f"component {k}: the sum runs over the {_show(n)} but is divided by the number of {_show(d)}: with a base atom missing from the file the centroid is not the mean of the atoms present", K(fi, "centroid"), expected="sum and count over the same present atoms", found=[_show(n), _show(d)])
+    else:
+        chk.ok("centroid-mean", fi.site(st), "centroid = (sum/len) per axis over the coordinates of the base atoms that are present (same collection in numerator and denominator)")
+    # which atom names: evaluated per base letter against the pinned table
+    names_e = nums[0][2][1]
+    want = spec("lw_edges.json")["BASE_ATOMS"]
+    diffs = {}
+    try:
+        for L in list(want) + ["N", "X"]:
+            got = Folder(repo, AN, {"residue": _Res(L)}).fold(names_e)
+            if sorted(got) != sorted(want.get(L, [])):
+                diffs[L] = sorted(set(got) ^ set(want.get(L, [])))
+        chk.expect(not diffs, "centroid-atoms", fi.site(st), "centroid atoms = the ring atoms of the residue's base (BASE_ATOMS, evaluated for A, C, G, U, T and unknown letters)", f"the centroid is taken over `{norm(names_e)[:70]}`, which differs from the base ring atoms for {sorted(diffs)}", K(fi, "centroid-atoms"), expected="BASE_ATOMS.get(residue.one_letter_name, [])", found=diffs)
+    except Exception as ex:
+        if norm(names_e) == "BASE_ATOMS.get(residue.one_letter_name, [])":
+            chk.ok("centroid-atoms", fi.site(st), "centroid atoms = BASE_ATOMS of the residue's base")
+        else:
+            # a table in another module: resolve Class.attr / module constant through the repository
+            tab = _foreign_table(repo, names_e)
+            if tab is not None:
+                diffs = {L: sorted(set(tab.get(L, [])) ^ set(want.get(L, []))) for L in want if sorted(tab.get(L, [])) != sorted(want.get(L, []))}
+                chk.expect(not diffs, "centroid-atoms", fi.site(st), "centroid atoms equal the base ring atoms", f"the centroid is taken over `{norm(names_e)[:70]}`, which differs from the base ring atoms (BASE_ATOMS) for {sorted(diffs)}: {diffs}", K(fi, "centroid-atoms"), found=diffs)
+            else:
+                chk.error("centroid-atoms", fi.site(st), f"atom names `{norm(names_e)[:80]}` of the centroid not evaluable: {ex}")
+    # guard: only for residues with at least one base atom present
+    fs = facts(fm.guards_within(st, rl))
+    guard_ok = False
+    for g in fs:
+        t = g.test
+        if isinstance(t, ast.Name):
+            dd = inl.reaching(t.id, st)
+            lc = _collection(t, st, rl, fm, inl)
+            if lc is not None and g.polarity:
+                guard_ok = guard_ok or (lc[0] == "present" or (lc[0] == "axis" and lc[2][0] == "present"))
+            continue
+        for pat, pol in (("len(L_) > 0", True), ("len(L_) >= 1", True), ("len(L_) != 0", True), ("len(L_) == 0", False), ("not L_", False), ("C_ > 0", True), ("C_ == 0", False)):
+            m = astq.match(t, pat)
+            if m and g.polarity == pol:
+                l_e = m.get("L_") if "L_" in pat else None
+                if l_e is None:
+                    ce = m["C_"]
+                    if isinstance(ce, ast.Name):
+                        dd = inl.reaching(ce.id, st)
+                        mm = astq.match(dd, "len(L_)") if dd is not None else None
+                        l_e = mm["L_"] if mm else None
+                if l_e is not None:
+                    lc = _collection(l_e, st, rl, fm, inl)
+                    if lc is not None and (lc[0] == "present" or (lc[0] == "axis" and lc[2][0] == "present")):
+                        guard_ok = True
+    chk.expect(guard_ok, "centroid-guard", fi.site(st), "a centroid exists only for residues with at least one base atom present", "the centroid is computed without testing that at least one base atom is present (division by zero for residues without a base)", K(fi, "centroid-guard"))
+
+
+def _foreign_table(repo, e: ast.AST):
+    """`<Class>.<attr>.get(residue.one_letter_name, <default>)` with a class-level dict constant in tertiary.py."""
+    m = astq.match(e, "C_.A_.get(residue.one_letter_name, D_)")
+    if not m or not isinstance(m["C_"], ast.Name):
+        return None
+    try:
+        expr = repo.class_attr_expr("tertiary", m["C_"].id, norm(m["A_"]))
+        v = Folder(repo, "tertiary").fold(expr)
+        return {k: list(x) for k, x in v.items()} if isinstance(v, dict) else None
+    except Exception:
+        return None
+
+
+def _member(e: ast.AST) -> Optional[str]:
+    if isinstance(e, ast.Attribute) and isinstance(e.value, ast.Name) and e.value.id == "StackingTopology" and e.attr not in ("name", "value", "reverse"):
+        return e.attr
+    return None
+
+
+def _reverse_table(repo) -> Optional[Dict[str, str]]:
+    """StackingTopology.reverse evaluated on every member (paths through the property body)."""
+    from sa import paths as P
+
+    try:
+        fi = repo.func("common", "StackingTopology.reverse")
+    except Exception:
+        return None
+    members = repo.enum_members("common", "StackingTopology")
+    table = {}
+    for m in members:
+        res = None
+        for events, exit_ in P.paths(fi.node.body):
+            ok = True
+            for ev in events:
+                if ev[0] == "test":
+                    t = ev[3]
+                    if not (isinstance(t, ast.Compare) and len(t.ops) == 1 and isinstance(t.ops[0], (ast.Eq, ast.Is)) and norm(t.left) == "self" and _member(t.comparators[0]) is not None):
+                        return None
+                    if (_member(t.comparators[0]) == m) != ev[2]:
+                        ok = False
+            if not ok or exit_ != "return":
+                continue
+            r = events[-1][1].value
+            if norm(r) == "self":
+                res = m
+            elif _member(r) is not None:
+                res = _member(r)
+            else:
+                return None
+            break
+        if res is None:
+            return None
+        table[m] = res
+    return table
+
+
+def _labels(chk, fi, loop) -> None:
+    """The recorded triple in the four cases (which residue is lower) x (normals same way): evaluated along the one feasible path."""
+    from sa import paths as P
+
+    repo = chk.repo
+    sd_idx = max((k for k, s in enumerate(loop.body) if isinstance(s, ast.Assign) and "same_direction" in astq.target_names(s.targets[0])), default=None)
+    if sd_idx is None:
+        chk.error("stack-labels", fi.site(loop), "`same_direction` is not assigned at the top level of the stacking loop")
+        return
+    tail = loop.body[sd_idx + 1 :]
+    rev = _reverse_table(repo)
+    cases = {}
+    problems = []
+    for lower_first, same in itertools.product((True, False), (True, False)):
+        env = {"residue_i < residue_j": lower_first, "residue_j > residue_i": lower_first, "residue_i <= residue_j": lower_first, "residue_j < residue_i": not lower_first, "residue_i > residue_j": not lower_first, "residue_j <= residue_i": not lower_first, "same_direction": same, "same_direction is True": same, "same_direction == True": same}
+        feasible = []
+        for events, exit_ in P.paths(tail):
+            ok = True
+            for ev in events:
+                if ev[0] == "test":
+                    if ev[1] not in env:
+                        problems.append(f"test `{ev[1]}` not understood")
+                        ok = False
+                    elif env[ev[1]] != ev[2]:
+                        ok = False
+            if ok:
+                feasible.append((events, exit_))
+        if len(feasible) != 1:
+            problems.append(f"case lower_first={lower_first}, same_direction={same}: {len(feasible)} feasible paths")
+            continue
+        store: Dict[str, ast.AST] = {}
+
+        def subst(e):
+            class _S(ast.NodeTransformer):
+                def visit_Name(s2, n):
+                    if isinstance(n.ctx, ast.Load) and n.id in store:
+                        return copy.deepcopy(store[n.id])
+                    return n
+            return _S().visit(copy.deepcopy(e))
+
+        recorded = []
+        for ev in feasible[0][0]:
+            if ev[0] != "stmt":
+                if ev[0] == "loop":
+                    problems.append("loop in the labelling tail")
+                continue
+            st = ev[1]
+            if isinstance(st, ast.Assign) and len(st.targets) == 1:
+                t = st.targets[0]
+                if isinstance(t, ast.Name):
+                    store[t.id] = subst(st.value)
+                    continue
+                if isinstance(t, ast.Tuple) and isinstance(st.value, ast.Tuple) and len(t.elts) == len(st.value.elts) and all(isinstance(x, ast.Name) for x in t.elts):
+                    vals = [subst(v) for v in st.value.elts]
+                    for x, v in zip(t.elts, vals):
+                        store[x.id] = v
+                    continue
+            for c2 in ast.walk(st):
+                if isinstance(c2, ast.Call) and isinstance(c2.func, ast.Attribute) and c2.func.attr == "append" and astq.dotted(c2.func.value) == "pairs" and c2.args:
+                    recorded.append((subst(c2.args[0]), c2))
+        if len(recorded) != 1:
+            problems.append(f"case lower_first={lower_first}, same_direction={same}: {len(recorded)} triples recorded")
+            continue
+        t, site = recorded[0]
+        if not (isinstance(t, ast.Tuple) and len(t.elts) == 3):
+            problems.append("recorded value is not a triple")
+            continue
+
+        def label(e) -> Optional[str]:
+            if isinstance(e, ast.Constant) and isinstance(e.value, str):
+                return e.value
+            if isinstance(e, ast.IfExp):
+                tv = bool_eval(e.test, env)
+                return None if tv is None else label(e.body if tv else e.orelse)
+            if _member(e) is not None:
+                return _member(e)
+            if isinstance(e, ast.Attribute) and e.attr in ("name", "value"):
+                return label(e.value)
+            if isinstance(e, ast.Attribute) and e.attr == "reverse":
+                inner = label(e.value)
+                return rev.get(inner) if (rev is not None and inner is not None) else None
+            m = astq.match(e, "StackingTopology[X_]")
+            if m:
+                return label(m["X_"])
+            return None
+
+        def which(e) -> Optional[str]:
+            if isinstance(e, ast.IfExp):
+                tv = bool_eval(e.test, env)
+                return None if tv is None else which(e.body if tv else e.orelse)
+            return norm(e) if norm(e) in ("residue_i", "residue_j") else None
+
+        cases[(lower_first, same)] = (which(t.elts[0]), which(t.elts[1]), label(t.elts[2]), site)
+    if problems or any(None in v[:3] for v in cases.values()):
+        chk.error("stack-labels", fi.site(loop), "; ".join(problems[:3]) or f"recorded triple not evaluable in some case: { {str(k): v[:3] for k, v in cases.items()} }")
+        return
+    bad = {}
+    for (lf, same), (a, b, lab, site) in cases.items():
+        want_pair = ("residue_i", "residue_j") if lf else ("residue_j", "residue_i")
+        group = {"upward", "downward"} if same else {"inward", "outward"}
+        if (a, b) != want_pair or lab not in group:
+            bad[f"residue_i {'<' if lf else '>'} residue_j, normals {'same' if same else 'opposite'} way"] = [a, b, lab]
+    chk.expect(
+        not bad,
+        "stack-labels",
+        fi.site(loop),
+        "in all four cases the lower residue comes first and the label is upward/downward iff the normals point the same way",
+        f"label grouping or orientation is wrong: {bad} (same direction must give upward/downward, opposite inward/outward, lower residue first)",
+        K(fi, "labels"),
+        found=bad,
+    )
+    labs = {(k, v[2]) for k, v in cases.items()}
+    by_same = {same: {cases[(lf, same)][2] for lf in (True, False)} for same in (True, False)}
+    merged = [same for same, ls in by_same.items() if len(ls) < 2]
+    chk.expect(
+        not merged,
+        "stack-labels",
+        fi.site(loop),
+        "the four cases use the four topologies (the label changes when the two residues swap roles)",
+        f"the two orders of a pair get the same label {sorted(by_same[merged[0]]) if merged else ''} when the normals point {'the same' if merged and merged[0] else 'opposite'} way: the topology does not flip when the residues are swapped into sorted order",
+        K(fi, "labels-distinct"),
+        found={str(k): v[2] for k, v in cases.items()},
+    )
+
+
 def run(chk) -> None:
     repo = chk.repo
     c = spec("constants.json")["C04"]
@@ -60,6 +429,7 @@ def run(chk) -> None:
     )
     chk.trusted = ["CPython ast", "scipy KDTree.query_pairs yields each unordered pair once with i < j", "base normal and angle function are C03's obligations (re-checked there)"]
     chk.assumptions = ["pairs within 1e-6 of a threshold are undecided", "float geometry is not decided", "which of upward/downward (inward/outward) applies for a given order is a convention; only the grouping is decided"]
+    chk.robust |= {"stack-radius", "centroid-mean", "centroid-axes", "centroid-atoms", "stack-normals", "stack-offset", "stack-labels", "stack-emission", "stack-topology-enum", "base-normal-eval"}
     fi = repo.func(AN, "find_stackings")
     chk.note_function(fi)
     fm = FlowMap(fi.node)
@@ -76,46 +446,13 @@ def run(chk) -> None:
     rl = rls[0]
     head = rl.body[0]
     chk.expect(isinstance(head, ast.If) and astq.match(head.test, "model is not None and residue.model != model") is not None and isinstance(head.body[-1], ast.Continue), "model-filter", fi.site(rl), "residues of other models are skipped first", "the residue loop does not start by skipping residues of other models", K(fi, "model-filter"))
-    ba = [v for s, v in astq.assignments(rl, "base_atoms") if v is not None]
-    chk.expect(len(ba) == 1 and norm(ba[0]) in ("BASE_ATOMS.get(residue.one_letter_name, [])",), "centroid-atoms", fi.site(rl), "centroid atoms = BASE_ATOMS of the residue's base", "centroid atom names are not BASE_ATOMS.get(residue.one_letter_name, [])", K(fi, "centroid-atoms"))
-    gc = [s for s in ast.walk(rl) if isinstance(s, ast.Assign) and norm(s.targets[0]) == "geometric_center"]
-    ok = False
-    found = None
-    if len(gc) == 1 and isinstance(gc[0].value, ast.Tuple) and len(gc[0].value.elts) == 3:
-        found = norm(gc[0].value)
-        lists = []
-        ok = True
-        for e in gc[0].value.elts:
-            m = astq.match(e, "sum(L_) / len(L_)")
-            if not m or not isinstance(m["L_"], ast.Name):
-                ok = False
-                break
-            lists.append(m["L_"].id)
-        if ok:
-            # each list receives atom.<axis> of the found atom, inside the loop over base_atoms, under `atom is not None`
-            axes = []
-            for nm in lists:
-                apps = [a for a in astq.calls(rl, "append") if astq.dotted(a.func.value) == nm]
-                if len(apps) != 1 or not apps[0].args:
-                    ok = False
-                    break
-                axes.append(norm(apps[0].args[0]))
-                st = fm.stmt_of(apps[0])
-                lps = [l for l in fm.of(st).loops if l is not rl]
-                g = [norm(x.test) for x in fm.guards_within(st, rl) if x.polarity]
-                ok = ok and len(lps) == 1 and norm(lps[0].iter) == "base_atoms" and g in (["atom is not None"], ["atom"])
-            ok = ok and axes == ["atom.x", "atom.y", "atom.z"]
-            at = [v for s, v in astq.assignments(rl, "atom") if v is not None]
-            ok = ok and len(at) == 1 and norm(at[0]) == "residue.find_atom(atom_name)"
-            g = [x for x in fm.guards_within(gc[0], rl) if x.polarity]
-            ok = ok and len(g) == 1 and norm(g[0].test) in (f"len({lists[0]}) > 0", lists[0], f"len({lists[0]}) >= 1")
-    chk.expect(ok, "centroid-mean", fi.site(gc[0]) if gc else fi.site(rl), "centroid = (sum/len) per axis over the coordinates of the base atoms that are present", "the centroid is not the per-axis mean over exactly the base atoms found in the residue (numerator and denominator must use the same list)", K(fi, "centroid"), found=found)
+    _centroid(chk, fi, fm, inl, rl)
     reg = [s for s in ast.walk(rl) if isinstance(s, ast.stmt) and norm(s) in ("coordinates.append(geometric_center)", "coordinates_residue_map[geometric_center] = residue")]
     chk.expect(len(reg) == 2, "centroid-register", fi.site(rl), "one centroid per residue is registered for the search and mapped back to its residue", "the centroid is not registered once in `coordinates` and mapped to its residue", K(fi, "centroid-register"))
 
     # ---- skips (closed world) -----------------------------------------------------------------
     for nm, want in (("residue_i", "coordinates_residue_map[coordinates[i]]"), ("residue_j", "coordinates_residue_map[coordinates[j]]"), ("normal_i", "residue_i.base_normal_vector"), ("normal_j", "residue_j.base_normal_vector")):
-        d = [v for s, v in astq.assignments(loop, nm) if v is not None]
+        d = [v for s, v in astq.assignments(loop, nm) if v is not None and s in loop.body][:1]
         chk.expect(len(d) == 1 and norm(d[0]) == want, "stack-roles", fi.site(loop), f"{nm} = {want}", f"{nm} is not {want}", K(fi, f"role:{nm}"))
     skips = [st for st in loop.body if isinstance(st, ast.If) and st.body and isinstance(st.body[-1], ast.Continue) and not st.orelse]
     none_skips = [s for s in skips if norm(s.test) in ("normal_i is None or normal_j is None", "normal_j is None or normal_i is None")]
@@ -195,60 +532,34 @@ def run(chk) -> None:
             e = e.test
         ok = norm(e) in ("numpy.dot(normal_i, normal_j) > 0.0", "numpy.dot(normal_i, normal_j) > 0", "numpy.dot(normal_j, normal_i) > 0.0", "0.0 < numpy.dot(normal_i, normal_j)", "bool(numpy.dot(normal_i, normal_j) > 0.0)")
     chk.expect(ok, "stack-direction", fi.site(loop), "same_direction <=> dot(normal_i, normal_j) > 0", "same_direction is not `dot(normal_i, normal_j) > 0`", K(fi, "direction"), found=[norm(x) for x in sd])
-    apps = [a for a in astq.calls(loop, "append") if astq.dotted(a.func.value) == "pairs"]
-    cases = {}
-    problems = []
-    for lower_first, same in itertools.product((True, False), (True, False)):
-        env = {"residue_i < residue_j": lower_first, "residue_j > residue_i": lower_first, "residue_j < residue_i": not lower_first, "residue_i > residue_j": not lower_first, "same_direction": same}
-        hits = []
-        for a in apps:
-            st = fm.stmt_of(a)
-            gs = [g for g in fm.guards_within(st, loop) if g.kind == "if"]
-            vals = [bool_eval(g.test, env) for g in gs]
-            if None in vals:
-                problems.append(f"guard not understood: {[norm(g.test) for g in gs]}")
-                continue
-            if all(v == g.polarity for v, g in zip(vals, gs)):
-                hits.append(a)
-        if len(hits) != 1:
-            problems.append(f"case lower_first={lower_first}, same_direction={same}: {len(hits)} appends")
-            continue
-        t = hits[0].args[0]
-        if not (isinstance(t, ast.Tuple) and len(t.elts) == 3):
-            problems.append("appended value is not a triple")
-            continue
-        lab = str_eval(t.elts[2], env)
-        first = str_eval(t.elts[0], env) if isinstance(t.elts[0], ast.IfExp) else norm(t.elts[0])
-        second = norm(t.elts[1])
-        cases[(lower_first, same)] = (first, second, lab)
-    if problems:
-        chk.error("stack-labels", fi.site(loop), "; ".join(problems[:3]))
-    else:
-        bad = {}
-        for (lf, same), (a, b, lab) in cases.items():
-            want_pair = ("residue_i", "residue_j") if lf else ("residue_j", "residue_i")
-            group = {"upward", "downward"} if same else {"inward", "outward"}
-            if (a, b) != want_pair or lab not in group:
-                bad[f"lower_first={lf},same_direction={same}"] = [a, b, lab]
-        chk.expect(
-            not bad,
-            "stack-labels",
-            fi.site(loop),
-            "in all four cases the lower residue comes first and the label is upward/downward iff the normals point the same way",
-            "label grouping or orientation is wrong in some branch: same direction must give upward/downward, opposite inward/outward, lower residue first",
-            K(fi, "labels"),
-            found=bad,
-        )
-        labs = {v[2] for v in cases.values()}
-        chk.expect(len(labs) == 4, "stack-labels", fi.site(loop), "the four cases use the four topologies", "two cases share a topology label", K(fi, "labels-distinct"), found=sorted(labs))
+    _labels(chk, fi, loop)
     # ---- emission -----------------------------------------------------------------------------------
     outs = [l for l in fi.node.body if isinstance(l, ast.For) and "pairs" in astq.names(l.iter) and l is not loop]
-    ok = len(outs) == 1 and norm(outs[0].iter) == "sorted(pairs)" and norm(outs[0].target) == "(residue_i, residue_j, topology)"
-    chk.expect(ok, "stack-emission", fi.site(outs[0]) if outs else fi.where, "stackings are emitted in sorted order, one per recorded triple", "stackings are not emitted by iterating sorted(pairs)", K(fi, "emission"))
-    if outs:
-        body = [norm(s) for s in outs[0].body]
-        ok = body == ["nt1 = Residue(residue_i.label, residue_i.auth)", "nt2 = Residue(residue_j.label, residue_j.auth)", "stackings.append(Stacking(nt1, nt2, StackingTopology[topology]))"]
-        chk.expect(ok, "stack-emission", fi.site(outs[0]), "Stacking(first, second, StackingTopology[label])", "the emitted Stacking does not carry (first, second, StackingTopology[label]) of its triple", K(fi, "emission-record"), found=body)
+    if len(outs) != 1 or not (isinstance(outs[0].target, ast.Tuple) and len(outs[0].target.elts) == 3 and all(isinstance(e, ast.Name) for e in outs[0].target.elts)):
+        chk.error("stack-emission", fi.where, "loop emitting the recorded triples not found")
+    else:
+        out = outs[0]
+        a, b, t = (e.id for e in out.target.elts)
+        if norm(out.iter) == "sorted(pairs)":
+            chk.ok("stack-emission", fi.site(out), "stackings are emitted in sorted order, one per recorded triple")
+        elif norm(out.iter) in ("pairs", "set(pairs)", "reversed(pairs)"):
+            chk.violation("stack-emission", fi.site(out), f"stackings are emitted by iterating `{norm(out.iter)}`, not sorted(pairs): the output order follows the KD-tree / set order", K(fi, "emission"), found=norm(out.iter))
+        else:
+            chk.error("stack-emission", fi.site(out), f"emission source `{norm(out.iter)}` not recognised")
+        oinl = Inliner(fi.node)
+        recs = [c2 for c2 in astq.calls(out, "append") if astq.dotted(c2.func.value) == "stackings"]
+        if len(recs) != 1 or not recs[0].args:
+            chk.error("stack-emission", fi.site(out), "expected one stackings.append(...) per triple")
+        else:
+            rec = oinl.inline(recs[0].args[0], fm.stmt_of(recs[0]), stop=(a, b, t))
+            want = f"Stacking(Residue({a}.label, {a}.auth), Residue({b}.label, {b}.auth), StackingTopology[{t}])"
+            swapped = f"Stacking(Residue({b}.label, {b}.auth), Residue({a}.label, {a}.auth), StackingTopology[{t}])"
+            if norm(rec) == want:
+                chk.ok("stack-emission", fi.site(recs[0]), "Stacking(first, second, StackingTopology[label]) of the triple")
+            elif norm(rec) == swapped:
+                chk.violation("stack-emission", fi.site(recs[0]), "the emitted Stacking swaps the two residues of the recorded triple but keeps its topology", K(fi, "emission-record"), found=norm(rec))
+            else:
+                chk.violation("stack-emission-form", fi.site(recs[0]), f"the emitted Stacking is `{norm(rec)[:120]}`, not (first, second, StackingTopology[label]) of its triple", K(fi, "emission-record"), found=norm(rec))
     tops = set(repo.enum_members("common", "StackingTopology"))
     chk.expect(tops == {"upward", "downward", "inward", "outward"}, "stack-topology-enum", "src/rnapolis/common.py StackingTopology", "StackingTopology has the four members", "StackingTopology members changed", "common:StackingTopology", found=sorted(tops))
     for rule, n in (("stack-radius", 1), ("stack-normals", 1), ("stack-offset", 1), ("stack-labels", 1), ("centroid-mean", 1)):
